@@ -650,6 +650,51 @@ func (c *Ctx) notationSwitch() (cases map[string]*ast.CaseClause, fn *ast.FuncDe
 				return true
 			})
 			if found != nil {
+				// cases moved into a helper of the package that the function calls (`applyToggle(opts, notation)`): a tagged
+				// switch over string constants in a callee declared in the same package continues the notation switch
+				ast.Inspect(fd.Body, func(n ast.Node) bool {
+					call, ok := n.(*ast.CallExpr)
+					if !ok {
+						return true
+					}
+					var obj types.Object
+					switch fx := call.Fun.(type) {
+					case *ast.Ident:
+						obj = pkg.TypesInfo.Uses[fx]
+					case *ast.SelectorExpr:
+						obj = pkg.TypesInfo.Uses[fx.Sel]
+					}
+					fo, isFunc := obj.(*types.Func)
+					if !isFunc || fo.Pkg() == nil || fo.Pkg().Path() != pkg.PkgPath {
+						return true
+					}
+					for _, f2 := range pkg.Syntax {
+						for _, d2 := range f2.Decls {
+							hd, ok := d2.(*ast.FuncDecl)
+							if !ok || hd.Body == nil || pkg.TypesInfo.Defs[hd.Name] != types.Object(fo) || hd == fd {
+								continue
+							}
+							ast.Inspect(hd.Body, func(n2 ast.Node) bool {
+								sw, ok := n2.(*ast.SwitchStmt)
+								if !ok || sw.Tag == nil {
+									return true
+								}
+								for _, st := range sw.Body.List {
+									cc := st.(*ast.CaseClause)
+									for _, e := range cc.List {
+										if tv, ok := pkg.TypesInfo.Types[e]; ok && tv.Value != nil && tv.Value.Kind() == constant.String {
+											if _, dup := found[constant.StringVal(tv.Value)]; !dup {
+												found[constant.StringVal(tv.Value)] = cc
+											}
+										}
+									}
+								}
+								return true
+							})
+						}
+					}
+					return true
+				})
 				return found, fd, pkg.TypesInfo
 			}
 		}
